@@ -118,6 +118,22 @@ pub fn wl_c13(seed: u64, tier: &str) -> Vec<Vec<Value>> {
                 }
             }
         }
+        // the largest element count that fits (XMD: 255 blocks; XOF: 65535 bytes) and its neighbours
+        for (f, l) in [("Fq", 64usize), ("Fr", 48), ("Fq2", 128)].iter() {
+            let maxc = if is_xmd { 255 * b / l } else { 65535 / l };
+            let mut cs = vec![maxc, maxc - 1];
+            if is_xmd {
+                cs.push(maxc + 1); // beyond 255 blocks: abort
+            }
+            for c in cs {
+                if !thorough && !is_xmd && *f != "Fr" && c != maxc {
+                    continue;
+                }
+                ops.push(json!({"op": "h2f", "f": f, "x": x, "msg": bytes_to_j(&r.bytes(7)), "dst": bytes_to_j(&r.bytes(13)),
+                                "count": c, "cls": format!("h2f-{}-max-count", f)}));
+                chunk(&mut sessions, &mut ops, 3);
+            }
+        }
         // hash_to_field for every field and several counts
         for f in ["Fq", "Fr", "Fq2"].iter() {
             for count in [0usize, 1, 2, 5, 11, 40, 127, 128].iter() {
@@ -307,6 +323,16 @@ pub fn wl_c15(seed: u64, tier: &str) -> Vec<Vec<Value>> {
         let mut ops = vec![];
         for (t, cls) in special_elems(&mut r, g) {
             ops.push(json!({"op": "swu", "g": g, "t": t, "cls": cls}));
+        }
+        // the whole boundary catalogue of the base field as inputs (limb boundaries of the integer
+        // representation matter to sgn0(t), the one place where the map looks at t as an integer)
+        let cat: Vec<Value> = if *g == "G1" { catalogue(&fq_info()).iter().map(|w| nat(w)).collect() } else { cat_f2(&mut r, &fq_info()) };
+        for t in cat.iter() {
+            ops.push(json!({"op": "swu", "g": g, "t": t, "cls": "catalogue"}));
+            if r.below(3) == 0 {
+                ops.push(json!({"op": "swu", "g": g, "t": neg_elem(g, t), "cls": "catalogue-negated"}));
+            }
+            chunk(&mut sessions, &mut ops, if *g == "G1" { 40 } else { 12 });
         }
         let n = if thorough { 3000 } else if *g == "G1" { 300 } else { 120 };
         for _ in 0..n {
@@ -499,6 +525,24 @@ pub fn wl_c14(seed: u64, tier: &str) -> Vec<Vec<Value>> {
         for (u, cls) in sp.iter() {
             ops.push(json!({"op": "map", "g": g, "u": u, "cls": cls}));
             chunk(&mut sessions, &mut ops, per);
+        }
+        let cat: Vec<Value> = if is1 { catalogue(&fq_info()).iter().map(|w| nat(w)).collect() } else { cat_f2(&mut r, &fq_info()) };
+        for (i, u) in cat.iter().enumerate() {
+            if !thorough && !is1 && i % 4 != (seed % 4) as usize {
+                continue;
+            }
+            ops.push(json!({"op": "map", "g": g, "u": u, "cls": "catalogue"}));
+            chunk(&mut sessions, &mut ops, per);
+        }
+        // every ordered pair of special inputs (equal ones - (0,0) - and opposite ones among them)
+        for (i, (a, ca)) in sp.iter().enumerate() {
+            for (j, (b, cb)) in sp.iter().enumerate() {
+                if !is1 && !thorough && (i * 3 + j) % 4 != 0 && i != j && !(i < 3 && j < 3) {
+                    continue;
+                }
+                ops.push(json!({"op": "map2", "g": g, "u0": a, "u1": b, "cls": format!("special-pair/{}/{}", ca, cb)}));
+                chunk(&mut sessions, &mut ops, per);
+            }
         }
         let n = if thorough { 200 } else if is1 { 30 } else { 6 };
         for i in 0..n {
